@@ -468,7 +468,7 @@ impl<'a> Reader<'a> {
         } else {
             // Emacs signals an error for ?( ?) ?[ ?] ?; without backslash? It
             // reads them with a warning at best; the subset requires the escape.
-            if matches!(c, '(' | ')' | '[' | ']' | ';' | '"') {
+            if matches!(c, '(' | ')' | '[' | ']' | ';') {
                 return Err(format!("character {:?} needs a backslash", c));
             }
             c
